@@ -136,7 +136,7 @@ fn cases(quick: bool) -> Vec<Case> {
         let all_k = if quick { n <= 64 } else { n <= 256 };
         let ks: Vec<usize> = if all_k { (0..n).collect() } else { gen::list_lengths(n) };
         for &k in &ks {
-            let sources: Vec<&'static str> = if n <= 64 || !quick { vec!["literal", "witness", "function", "match"] } else { vec!["literal", "witness"] };
+            let sources: Vec<&'static str> = if n <= 64 || !quick { vec!["literal", "witness", "function", "match", "param"] } else { vec!["literal", "witness"] };
             let mut sources = sources;
             // every element its own witness / alternating constants and witnesses (small bounds: k witnesses per program)
             if k >= 1 && (n <= 16 || (!quick && n <= 64)) {
@@ -186,7 +186,7 @@ fn cases(quick: bool) -> Vec<Case> {
 pub fn run(rep: &Report) -> i32 {
     let quick = rep.is_quick();
     let cs = cases(quick);
-    rep.set("bounds", json!({"cases": cs.len(), "bounds_N": if quick {"2..256 (all lengths for N<=64, block edges +-1 above)"} else {"2..512 (all lengths for N<=256, block edges +-1 for 512)"}, "sources": ["literal", "witness", "function", "match", "witness-elements (N<=16 quick, <=64 thorough)", "mixed-elements", "nested-literal-elements"], "fold_functions": ["counter", "hash", "rotate", "tagged", "opt", "panic@j"]}));
+    rep.set("bounds", json!({"cases": cs.len(), "bounds_N": if quick {"2..256 (all lengths for N<=64, block edges +-1 above)"} else {"2..512 (all lengths for N<=256, block edges +-1 for 512)"}, "sources": ["literal", "witness", "function", "match", "param (param::XS written directly as the operand)", "witness-elements (N<=16 quick, <=64 thorough)", "mixed-elements", "nested-literal-elements"], "fold_functions": ["counter", "hash", "rotate", "tagged", "opt", "panic@j"]}));
     par_for(&cs, rep, 4, |i, c| {
         drive::DUMMY.with(|env| check_case(rep, c, i, env));
     });
@@ -209,7 +209,7 @@ fn check_case(rep: &Report, c: &Case, idx: usize, env: &drive::Env) {
     let mut free: Vec<(String, Ty)> = vec![];
     let mut assignments: Vec<Vec<Val>> = vec![vec![]];
     let list_expr = match c.source {
-        "literal" => lit,
+        "literal" | "param" => lit.clone(),
         "witness" => {
             free.push(("xl".into(), list_ty.clone()));
             assignments = vec![vec![Val::List(elements.clone())]];
@@ -269,6 +269,25 @@ fn check_case(rep: &Report, c: &Case, idx: usize, env: &drive::Env) {
             return;
         }
     };
+    let mut pinned = pinned;
+    if c.source == "param" {
+        // the same program with `param::XS` written directly as the fold's list operand, instantiated with the list as
+        // argument; R2 evaluates the literal form (C12: instantiation equals literal substitution)
+        let pterm = call(CallName::Fold(fns[0].name.clone(), c.n), vec![Expr::Param("XS".into()), val_expr(&init, &acc_ty)]);
+        let ptext = crate::gen::wrap_term(&pterm, &acc_ty, &free, &fns).render();
+        let args = vec![("XS".to_string(), Val::List(elements.clone()), list_ty.clone())];
+        match drive::build(&ptext, drive::argument_map(&args), false) {
+            Ok(b) => {
+                pinned.built = vec![(false, b)];
+                pinned.text = ptext;
+                pinned.args = args;
+            }
+            Err(o) => {
+                rep.violation("C08:not-compiled", format!("{tag}: well-typed fold program over a parameter not compiled: {o:?}"), json!({"kind": "instantiate", "program": ptext, "args": map_json(&args), "expect": "accept", "observed": "reject"}));
+                return;
+            }
+        }
+    }
     if c.k >= 3 && c.k.count_ones() >= 2 {
         rep.nontrivial(1);
     }
